@@ -96,6 +96,7 @@ type FnCtx struct {
 	curCall   *ssa.CallCommon
 	exitBound map[int]bool
 	ghostAt  map[string]*ssa.BasicBlock
+	usedCons map[string]bool // module functions whose contracts were applied at call sites
 	uncontracted map[string]bool
 	externs  map[string]bool
 	curIdx   int
